@@ -217,10 +217,13 @@ func genInputs(kind string, seed int64, n int) []N {
 		// place at different distances into a body, malformed declarations, limits
 		pads := []int{0, 1, 3, 8, 20, 40}
 		for _, n := range pads {
-			pad := strings.Repeat("y := 1\n", n)
+			pad := ""
+			for j := 0; j < n; j++ {
+				pad += fmt.Sprintf("y%d := %d\n", j, j)
+			}
 			for _, kw := range []string{"break", "continue"} {
 				add("for i := 0; i < 2; i++ {\nf := func() {\n" + pad + kw + "\n}\nf()\n}")
-				add("for i := range 3 {\n" + pad + "f := func() {\n" + pad + "if i > 0 {\n" + kw + "\n}\n}\nf()\n}")
+				add("for i := range 3 {\nf := func() {\n" + pad + "if i > 0 {\n" + kw + "\n}\n}\nf()\n}")
 				add("for _, v := range [1, 2] {\n[1].each(func(x) {\n" + pad + kw + "\n})\n}")
 				add("for {\nfunc g() {\n" + pad + "switch 1 {\ncase 1:\n" + kw + "\n}\n}\ng()\nbreak\n}")
 				add("for i := 0; i < 1; i++ {\ndefer func() {\n" + pad + kw + "\n}()\n}")
@@ -232,7 +235,7 @@ func genInputs(kind string, seed int64, n int) []N {
 				add("switch 1 {\ncase 1:\n" + pad + kw + "\n}")
 				add("x := func(a=1) {\n" + pad + kw + "\n}")
 			}
-			add(pad + "return 1\n" + pad)
+			add(pad + "return 1\n")
 			add("for i := 0; i < 2; i++ {\n" + pad + "return i\n}")
 		}
 		for _, s := range []string{"func f(a, a) { return a }", "func f(a, b=1, c) { return a }", "func f(a=1, a=2) {}", "const c = 1\nc = 2", "const c = 1\nc++",
